@@ -243,3 +243,102 @@ def vc_polarity(H):
                 raise raised
             return r
         H.run_paths(fuc, '', body)
+
+
+# =====================================================================================
+# compositions: codegen_sw / codegen_proj / codegen_normsq (C06), codegen_div / codegen_inv structure (C07)
+# =====================================================================================
+def vc_compositions(H):
+    """The generated sandwich, projection and squared norm are literally the compositions of the statement, evaluated with the
+    elementary operators on the symbolic operands: x*y*~x, (x|y)*~y, x*~x (operator precedence as in Python)."""
+    from kvc.rec import Rec, sym, same
+    x, y = sym('x'), sym('y')
+    mul = lambda a, b: Rec('binop', 'Mult', a, b)
+    rev = lambda a: Rec('unop', 'Invert', a)
+    ip = lambda a, b: Rec('binop', 'BitOr', a, b)
+    table = {'codegen_sw': ((x, y), mul(mul(x, y), rev(x)), 'x * y * ~x'),
+             'codegen_proj': ((x, y), mul(ip(x, y), rev(y)), '(x | y) * ~y'),
+             'codegen_normsq': ((x,), mul(x, rev(x)), 'x * ~x')}
+    for fn, (args, exp, txt) in table.items():
+        fuc = H.fn(REL, fn)
+
+        def body(ctx, fuc=fuc, args=args, exp=exp, txt=txt):
+            r = H.closure(Interp(ctx, source_name=REL), fuc)(*args)
+            ctx.oblige(f'post: returns {txt} built from the elementary operators', same(r, exp), meta={'got': repr(r)})
+            return r
+        H.run_paths(fuc, '', body)
+
+
+def vc_inv_div_structure(H):
+    """codegen_inv: Hitzer closed forms for d < 6, Shirokov beyond; result = num * (1/denom) through a dependency;
+    codegen_div: x * num * (1/denom) with ZeroDivisionError when denom is identically zero."""
+    from kvc.rec import Rec, sym, same
+    fi = H.fn(REL, 'codegen_inv')
+    fd = H.fn(REL, 'codegen_div')
+    for d in (0, 3, 5, 6, 7):
+        for with_x in (False, True):
+            def body(ctx, d=d, with_x=with_x):
+                calls = []
+                num, denom = sym('num'), sym('denom', truth=True)
+                hitzer = sym('codegen_hitzer_inv', callable_result=lambda i, m, a, k: calls.append(('hitzer', a, k)) or (num, denom))
+                shirokov = sym('codegen_shirokov_inv', callable_result=lambda i, m, a, k: calls.append(('shirokov', a, k)) or (num, denom))
+                alg = sym('algebra', attrs={'d': d})
+                yv = sym('y', attrs={'algebra': alg})
+                xv = sym('x')
+                Fr = lambda n, dd: ('Fraction', n, dd)
+                r = H.closure(Interp(ctx, source_name=REL), fi, {'codegen_hitzer_inv': hitzer, 'codegen_shirokov_inv': shirokov, 'Fraction': Fr})(
+                    yv, xv if with_x else None, symbolic=True)
+                want = 'hitzer' if d < 6 else 'shirokov'
+                ctx.oblige(f'd={d}: uses the {want} scheme on y (closed forms exist up to 5 dimensions)',
+                           len(calls) == 1 and calls[0][0] == want and same(tuple(calls[0][1]), (yv,)) and calls[0][2] == {'symbolic': True},
+                           meta={'calls': repr(calls)})
+                expn = Rec('binop', 'Mult', xv, num) if with_x else num
+                ctx.oblige('symbolic result is Fraction(x * num, denom) (x on the left: a/b = a * inverse(b))',
+                           isinstance(r, tuple) and r[0] == 'Fraction' and same(r[1], expn) and r[2] is denom, meta={'got': repr(r)})
+                return r
+            H.run_paths(fi, f'd={d},x={"given" if with_x else "None"}', body)
+    for zero in (False, True):
+        def body(ctx, zero=zero):
+            num, denom = sym('num'), sym('denom', truth=not zero)
+            prods = []
+            prod = sym('num*d.e', attrs={'items': sym('items', callable_result=lambda i, m, a, k: [('K', 'V')])})
+
+            def num_binop(interp, op, other, reflected):
+                prods.append((op, other, reflected))
+                return prod
+            num.kvc_binop = num_binop
+            inv = sym('codegen_inv', callable_result=lambda i, m, a, k: (num, denom))
+            scal = []
+            dmv = sym('d-scalar', attrs={'e': sym('d.e'), 'values': sym('d.values', callable_result=lambda i, m, a, k: ['dsym'])})
+            dinv = sym('1/denom-scalar', attrs={'values': sym('dinv.values', callable_result=lambda i, m, a, k: ['dinv'])})
+
+            def scalar(i, m, a, k):
+                scal.append((a, k))
+                return dmv if 'name' in k else dinv
+            alg = sym('algebra', attrs={'scalar': sym('alg.scalar', callable_result=scalar), 'div': sym('alg.div', attrs={'codegen_symbolcls': sym('symcls')})})
+            xv = sym('x', attrs={'algebra': alg, 'values': sym('x.values', callable_result=lambda i, m, a, k: 'XVALS')})
+            yv = sym('y', attrs={'values': sym('y.values', callable_result=lambda i, m, a, k: 'YVALS')})
+            LI = lambda **kw: ('LambdifyInput', kw)
+            tid = sym('_type_id', callable_result=lambda i, m, a, k: 'T')
+            try:
+                r = H.closure(Interp(ctx, source_name=REL), fd, {'codegen_inv': inv, 'LambdifyInput': LI, '_type_id': tid})(xv, yv)
+                raised = None
+            except ZeroDivisionError as e:
+                r, raised = None, e
+            if zero:
+                ctx.oblige('identically zero denominator raises ZeroDivisionError', raised is not None)
+                if raised:
+                    raise raised
+                return r
+            ok = raised is None and isinstance(r, tuple) and r[0] == 'LambdifyInput'
+            ctx.oblige('returns a LambdifyInput', bool(ok))
+            if ok:
+                kw = r[1]
+                ctx.oblige('args bind x then y to their values', kw.get('args') == {'x': 'XVALS', 'y': 'YVALS'})
+                ctx.oblige('dependency d = 1 / denom', kw.get('dependencies') == [('dsym', 'dinv')] and len(scal) == 2
+                           and same(scal[1][0][0], [Rec('binop', 'Div', 1, denom)]), meta={'got': repr(kw.get('dependencies')), 'scalar_calls': repr(scal)})
+                ed = kw.get('expr_dict')
+                ctx.oblige('expressions are those of num * d.e', ed == {'K': 'V'} and len(prods) == 1 and prods[0][0] == 'Mult'
+                           and prods[0][1] is dmv.attrs['e'] and not prods[0][2], meta={'got': repr((ed, prods))})
+            return r
+        H.run_paths(fd, f'denominator-zero={zero}', body)
